@@ -61,7 +61,7 @@ pub fn neutral_headers(n: u8) -> Vec<(String, Vec<u8>)> {
     ];
     // 0..=4: the first n of the plain fields; 5..: fields that describe the content without changing how it is framed or
     // delivered (codings the client does not decode are passed through; a media type is only a label)
-    let set: Vec<(&str, &str)> = match n % 12 {
+    let set: Vec<(&str, &str)> = match n % 16 {
         k @ 0..=4 => all.iter().take(k as usize).copied().collect(),
         5 => vec![("Content-Encoding", "identity")],
         6 => vec![("Content-Encoding", "br")],
@@ -69,7 +69,12 @@ pub fn neutral_headers(n: u8) -> Vec<(String, Vec<u8>)> {
         8 => vec![("Content-Encoding", "zstd"), ("Content-Type", "application/zstd")],
         9 => vec![("Content-Encoding", "x-unknown"), all[0]],
         10 => vec![("Vary", "Accept-Encoding"), ("Content-Encoding", "identity")],
-        _ => vec![("Content-Language", "en"), ("Content-Encoding", "compress")],
+        11 => vec![("Content-Language", "en"), ("Content-Encoding", "compress")],
+        // what the server says about the connection's future says nothing about where this body ends
+        12 => vec![("Connection", "keep-alive")],
+        13 => vec![("Connection", "Keep-Alive"), ("Keep-Alive", "timeout=5, max=100")],
+        14 => vec![("Connection", "close")],
+        _ => vec![("Connection", "keep-alive, Upgrade"), ("Upgrade", "h2c")],
     };
     set.into_iter().map(|(k, v)| (k.to_string(), v.as_bytes().to_vec())).collect()
 }
@@ -200,7 +205,7 @@ segmentation x caller read plan), run through send() on a scripted transport; no
             seg(),
             gen::read_plan(),
             proptest::collection::vec(gen::read_size(), 0..4),
-            0u8..12,
+            0u8..16,
             (prop_oneof![5 => Just(vec![]), 1 => proptest::collection::vec((any::<u16>(), 0u8..3), 1..3)], 0u8..STATUSES.len() as u8, prop_oneof![4 => Just(0u8), 1 => 1u8..=39]),
         )
             .prop_map(|(payload, framing, hdr_style, trailing, seg, reads, after_eof, neutral_headers, (hiccups, status, prelude))| Case {
@@ -251,7 +256,8 @@ segmentation x caller read plan), run through send() on a scripted transport; no
             Err(e) => return Outcome::fail("C01:send-failed", format!("send() failed on a well-formed response: {e:?}")),
         };
         ensure!(resp.status().as_u16() == status, "C01:status", "status {}", resp.status());
-        ctx.label_if(case.neutral_headers % 12 >= 5, "describing-headers(unknown coding / media type)");
+        ctx.label_if((5..12).contains(&(case.neutral_headers % 16)), "describing-headers(unknown coding / media type)");
+        ctx.label_if(case.neutral_headers % 16 >= 12, "connection-field-present");
         ctx.label_if(status / 100 == 3, "status-3xx-not-followed");
 
         let consumed = consume(resp, &case.reads, &case.after_eof, payload.len());
